@@ -1,2 +1,72 @@
-(** C24 — placeholder while the theorems are being proved (statements only live here). *)
-Require Import MPyC.Gfpx MPyC.Gf2x MPyC.Irred.
+(** C24 — irreducibility tests and irreducible-modulus search.
+    Only statements; proofs are in theories/Irred.v (as-coded models of _is_irreducible /
+    _next_irreducible of both classes, find_irreducible, xGF acceptance; [brute_irreducible]
+    is trial division by every polynomial of degree 1 .. deg-1). *)
+Require Import MPyC.Base MPyC.Zp MPyC.Gfpx MPyC.Gf2x MPyC.Irred.
+From Coq Require Import ZArith Znumtheory.
+Local Open Scope Z_scope.
+
+(** the reference test means: degree >= 1 and no polynomial of degree 1..deg-1 divides *)
+Theorem C24_brute_force_meaning : forall p a, 0 <= p ->
+  brute_irreducible p a = true <->
+  (1 < length a)%nat /\
+  forall k, p <= k < p ^ (Z.of_nat (length a) - 1) -> from_int p k = [] \/ mod_nz p a (from_int p k) <> [].
+Proof. exact brute_irreducible_iff. Qed.
+Print Assumptions C24_brute_force_meaning.
+
+(** Ben-Or test = brute force for ALL polynomials with integer encoding below the bound *)
+Theorem C24_is_irreducible_bounded : forall p N, In (p, N) [(2, 1024); (3, 729); (5, 625); (7, 343)] ->
+  forall a, 0 <= a < N -> is_irreducible p (from_int p a) = Ok (brute_irreducible p (from_int p a)).
+Proof. exact is_irreducible_bounded. Qed.
+Print Assumptions C24_is_irreducible_bounded.
+Theorem C24_is_irreducible_binary_bounded : forall a, 0 <= a < 1024 ->
+  is_irreducible2 a = Ok (brute_irreducible 2 (bits a)).
+Proof. exact is_irreducible2_bounded. Qed.
+Print Assumptions C24_is_irreducible_binary_bounded.
+Theorem C24_GF_accepts_iff_irreducible_bounded : forall p N, In (p, N) [(2, 1024); (3, 729); (5, 625); (7, 343)] ->
+  forall a, 0 <= a < N -> gf_accepts p (from_int p a) = Ok (brute_irreducible p (from_int p a)).
+Proof. exact gf_accepts_bounded. Qed.
+Print Assumptions C24_GF_accepts_iff_irreducible_bounded.
+
+(** binary class: next_irreducible is the least irreducible above its argument *)
+Theorem C24_next_irreducible_binary_bounded : forall a, 0 <= a < 1024 ->
+  exists b, next_irreducible2 600 a = Ok b /\ a < b /\ is_irreducible2 b = Ok true /\
+            forall c, a < c < b -> is_irreducible2 c <> Ok true.
+Proof. exact next_irreducible2_bounded. Qed.
+Print Assumptions C24_next_irreducible_binary_bounded.
+Theorem C24_find_irreducible_binary_smallest_bounded : forall d, 1 <= d <= 12 ->
+  exists b, find_irreducible2 600 d = Ok b /\ 2 ^ d <= b < 2 ^ (d + 1) /\ is_irreducible2 b = Ok true /\
+            forall c, 2 ^ d <= c < b -> is_irreducible2 c <> Ok true.
+Proof. exact find_irreducible2_smallest_bounded. Qed.
+Print Assumptions C24_find_irreducible_binary_smallest_bounded.
+
+(** generic class: "smallest monic irreducible above a" is FALSE of the code as written (X is skipped) *)
+Theorem C24_next_irred_generic_refuted : exists p a b c,
+  prime p /\ next_irreducible p 600 (from_int p a) = Ok b /\
+  a < c < to_int p b /\ last (from_int p c) 0 = 1 /\ is_irreducible p (from_int p c) = Ok true.
+Proof. exact next_irred_generic_refuted. Qed.
+Print Assumptions C24_next_irred_generic_refuted.
+Theorem C24_next_irreducible_skips_X_bounded : forall p, In p [3; 5; 7; 11; 13] ->
+  forall a, 0 <= a < p -> next_irreducible p 600 (from_int p a) = Ok [1; 1] /\ is_irreducible p [0; 1] = Ok true.
+Proof. exact next_irreducible_skips_X_bounded. Qed.
+Print Assumptions C24_next_irreducible_skips_X_bounded.
+(** ... and X is the only casualty on the bounded domains: from a >= p the search is correct *)
+Theorem C24_next_irreducible_from_p_partial : forall p N, In (p, N) [(2, 512); (3, 243); (5, 625); (7, 343)] ->
+  forall a, p <= a < N ->
+  exists b, next_irreducible p 600 (from_int p a) = Ok b /\ a < to_int p b /\ monic_irr p (to_int p b) = true /\
+            forall c, a < c < to_int p b -> monic_irr p c = false.
+Proof. exact next_irreducible_bounded_from_p. Qed.
+Print Assumptions C24_next_irreducible_from_p_partial.
+Theorem C24_find_irreducible_partial : forall p N, In (p, N) [(2, 512); (3, 243); (5, 625); (7, 343)] ->
+  forall d, p <= p ^ d - 1 < N ->
+  exists b, find_irreducible p 600 d = Ok b /\ p ^ d - 1 < to_int p b /\ monic_irr p (to_int p b) = true /\
+            forall c, p ^ d - 1 < c < to_int p b -> monic_irr p c = false.
+Proof. exact find_irreducible_bounded. Qed.
+Print Assumptions C24_find_irreducible_partial.
+
+(** Non-vacuity: X^2+1 over GF(3) is irreducible, X^2+2 = (X+1)(X+2) is not; binary X^3+X+1 *)
+Example C24_nonvacuous :
+  is_irreducible 3 [1; 0; 1] = Ok true /\ is_irreducible 3 [2; 0; 1] = Ok false /\
+  brute_irreducible 3 [1; 0; 1] = true /\ is_irreducible2 11 = Ok true /\
+  next_irreducible2 600 11 = Ok 13 /\ next_irreducible 3 600 [] = Ok [1; 1].
+Proof. vm_compute. auto 10. Qed.
